@@ -283,6 +283,10 @@ theorem svcGone_keeps_views (r : Reg) (o : Nat) :
 /-! ### regenerated facts -/
 
 open Gen.LockFacts in
+/-- the same on every control-flow path separately (regenerated `Gen.LockPaths`): no early return, branch or case of
+    any of these functions leaves a mutex held that a `defer` does not release -/
+theorem service_locks_balanced_every_path : pathsUnbalancedIn ["service"] = [] := by decide
+
 theorem service_locks_balanced : unbalancedIn ["service"] = [] := by decide
 
 open Gen.CallSeq in
